@@ -7,6 +7,7 @@ package keygen
 // what was handed to EncryptKey (the minted key) relative to what DecryptKey / Authorize returned (the parent).
 
 import (
+	"math/big"
 	"time"
 
 	"github.com/emitter-io/emitter/internal/errors"
@@ -98,6 +99,27 @@ func post_CreateKey_inherit(s *Service, res1 *errors.Error) bool {
 func post_CreateKey_perms(s *Service, access uint8, res1 *errors.Error) bool {
 	k := vs.TraceBytes(vs.TraceFind("EncryptKey"), 1)
 	return res1 != nil || (len(k) == 24 && k[15] == access&^security.AllowMaster)
+}
+
+// The salt of a minted key (C12): it is the number drawn from crypto/rand for THIS key - not a constant, not the
+// parent's. (Under the legacy XTEA cipher a key is three independently encrypted 8-byte blocks, masked with the
+// per-key salt: differing salts are what makes a block cut from one issued key and pasted into another decode to
+// a broken signature. Keys that share their salt can be recombined without the license secret.)
+// @ verify (*Service).CreateKey as=salt pre=pre_Service post=post_CreateKey_salt props=C12,C11
+func post_CreateKey_salt(s *Service, res1 *errors.Error) bool {
+	if res1 != nil {
+		return true
+	}
+	r, u, e := vs.TraceFind("rand.Int"), vs.TraceFind("big.Int).Uint64"), vs.TraceFind("EncryptKey")
+	if r < 0 || u < r || e < u || vs.TraceCount("rand.Int") != 1 || vs.TraceCount("big.Int).Uint64") != 1 || vs.TraceRet[error](r, 1) != nil {
+		return false
+	}
+	// the number that was read is the one that was drawn
+	if vs.TraceArg[*big.Int](u, 0) != vs.TraceRet[*big.Int](r, 0) {
+		return false
+	}
+	k, salt := vs.TraceBytes(e, 1), uint16(vs.TraceRet[uint64](u, 0))
+	return len(k) == 24 && k[0] == byte(salt>>8) && k[1] == byte(salt)
 }
 
 // ExtendKey: requires Authorize(channel, AllowExtend); the result has permissions parent & access & ^extend
